@@ -14,6 +14,13 @@ pub fn parse_res(buf: &[u8], flt: Option<&ProcessedDltFilterConfig>, sh: bool, w
     let r = catch_unwind(AssertUnwindSafe(|| dlt_message(buf, flt, sh)));
     proj::parse_result(buf.len(), &r, with_rest)
 }
+/// C03 only: a filter built directly (public fields), with a minimum level the conversions never produce
+pub fn parse_event_direct(buf: &[u8], cfg: &DltFilterConfig, invalid_level: u8, sh: bool) -> J {
+    let mut processed: ProcessedDltFilterConfig = cfg.into();
+    processed.min_log_level = Some(LogLevel::Invalid(invalid_level));
+    json!({"op": "parse", "buf": proj::bytes(buf), "sh": sh, "flt": [proj::filter_config(cfg)], "direct": invalid_level,
+           "res": parse_res(buf, Some(&processed), sh, false)})
+}
 pub fn parse_event(buf: &[u8], cfg: Option<&DltFilterConfig>, sh: bool) -> J {
     let processed: Option<ProcessedDltFilterConfig> = cfg.map(|c| c.into());
     json!({"op": "parse", "buf": proj::bytes(buf), "sh": sh, "flt": proj::opt(&cfg, |c| proj::filter_config(c)),
@@ -153,9 +160,15 @@ pub fn junkparse_event(junk: &[u8], msg: &[u8], sfx: &[u8], cfg: Option<&DltFilt
            "a": parse_res(&with, processed.as_ref(), true, false), "b": parse_res(&without, processed.as_ref(), true, false)})
 }
 pub fn prefixes_event(b: &[u8], sh: bool, ks: &[usize], calls: &mut u64) -> J {
+    prefixes_event_f(b, sh, ks, calls, None)
+}
+/// `cfg`: additionally every cut is parsed with this filter (it may or may not reject the message): still incomplete
+pub fn prefixes_event_f(b: &[u8], sh: bool, ks: &[usize], calls: &mut u64, cfg: Option<&DltFilterConfig>) -> J {
     let cuts: Vec<J> = ks.iter().map(|k| { *calls += 1; parse_res(&b[..*k], None, sh, false) }).collect();
     let ccuts: Vec<J> = if sh { ks.iter().map(|k| { *calls += 1; consume_res(&b[..*k]) }).collect() } else { vec![] };
-    json!({"op": "prefixes", "full": proj::bytes(b), "sh": sh, "ks": ks, "cuts": cuts, "ccuts": ccuts})
+    let processed: Option<ProcessedDltFilterConfig> = cfg.map(|c| c.into());
+    let fcuts: Vec<J> = match &processed { Some(p) => ks.iter().map(|k| { *calls += 1; parse_res(&b[..*k], Some(p), sh, false) }).collect(), None => vec![] };
+    json!({"op": "prefixes", "full": proj::bytes(b), "sh": sh, "ks": ks, "cuts": cuts, "ccuts": ccuts, "flt": proj::opt(&cfg, |c| proj::filter_config(c)), "fcuts": fcuts})
 }
 fn item_of(buf: &[u8], sh: bool) -> Option<Message> {
     match catch_unwind(AssertUnwindSafe(|| dlt_message(buf, None, sh))) {
@@ -172,6 +185,11 @@ pub fn random_filter(r: &mut Rng, m: Option<&Message>) -> DltFilterConfig {
         if let Some(x) = &m.extended_header {
             pool.push(x.application_id.clone());
             pool.push(x.context_id.clone());
+            // ids that differ from the message's only in letter case
+            pool.push(x.application_id.to_lowercase());
+            pool.push(x.application_id.to_uppercase());
+            pool.push(x.context_id.to_lowercase());
+            pool.push(x.context_id.to_uppercase());
         }
         if let Some(e) = &m.header.ecu_id {
             pool.push(e.clone());
@@ -193,7 +211,10 @@ pub fn random_filter(r: &mut Rng, m: Option<&Message>) -> DltFilterConfig {
         1 => Some(r.below(256) as u8),
         _ => Some(r.below(8) as u8),
     };
-    DltFilterConfig { min_log_level, app_ids, ecu_ids, context_ids, app_id_count: r.below(5) as i64 - 1, context_id_count: r.below(5) as i64 - 1 }
+    let count = |r: &mut Rng| if r.one_in(12) { *r.pick(&[i64::MIN, i64::MIN + 1, i64::MAX, -1000, 1 << 40]) } else { r.below(5) as i64 - 1 };
+    let app_id_count = count(r);
+    let context_id_count = count(r);
+    DltFilterConfig { min_log_level, app_ids, ecu_ids, context_ids, app_id_count, context_id_count }
 }
 
 fn suffixes(r: &mut Rng, sh: bool) -> Vec<Vec<u8>> {
@@ -253,6 +274,21 @@ pub fn record(mode: &str, seed: u64, n: usize, out: &mut Out) {
                     out.calls += 1;
                     out.emit(parse_event(&d.0, None, d.1), true);
                 }
+                if sh && i % 3 == 0 {
+                    // junk in front of the storage header and a cut at / around every guard of the decoder
+                    let junk: Vec<u8> = (0..1 + r.below(20)).map(|_| *r.pick(&[b'X', 0u8, b'D', b'L', 7u8])).collect();
+                    let htyp = b[16];
+                    let std = 4 + 4 * ((htyp >> 2 & 1) + (htyp >> 3 & 1) + (htyp >> 4 & 1)) as usize;
+                    let hdrs = std + if htyp & 1 == 1 { 10 } else { 0 };
+                    for cut in [12usize, 15, 16, 19, 20, 16 + std - 1, 16 + std, 16 + hdrs - 1, 16 + hdrs, 16 + hdrs + 1, 16 + hdrs + 3, 16 + hdrs + 4, b.len() - 1] {
+                        if cut <= b.len() {
+                            let mut x = junk.clone();
+                            x.extend(&b[..cut]);
+                            out.calls += 1;
+                            out.emit(parse_event(&x, None, true), true);
+                        }
+                    }
+                }
             }
         }
         // C03: every entry point on hostile input; every returned message is re-serialised and measured
@@ -264,6 +300,11 @@ pub fn record(mode: &str, seed: u64, n: usize, out: &mut Out) {
                     let cfg = if r.coin() { Some(random_filter(&mut r, None)) } else { None };
                     out.calls += 2;
                     out.emit(nopanic(parse_event(&x, cfg.as_ref(), sh)), x.len() >= 4);
+                    if let (Some(c), true) = (cfg.as_ref(), r.one_in(3)) {
+                        out.calls += 1;
+                        let lvl = *r.pick(&[0u8, 7, 9, 15, 200]);
+                        out.emit(nopanic(parse_event_direct(&x, c, lvl, sh)), x.len() >= 4);
+                    }
                     if let Some(m) = item_of(&x, sh) {
                         out.calls += 4;
                         let mut e = reser_event(&m, true);
@@ -354,7 +395,8 @@ pub fn record(mode: &str, seed: u64, n: usize, out: &mut Out) {
                 let sh = m.storage_header.is_some();
                 let b = m.as_bytes();
                 let ks: Vec<usize> = (0..b.len()).collect();
-                { let mut c = 0u64; let e = prefixes_event(&b, sh, &ks, &mut c); out.calls += c; out.emit(e, true); }
+                let cfg = if i % 2 == 0 { Some(random_filter(&mut r, Some(&m))) } else { None };
+                { let mut c = 0u64; let e = prefixes_event_f(&b, sh, &ks, &mut c, cfg.as_ref()); out.calls += c; out.emit(e, true); }
                 if i % 60 == 11 {
                     // a maximal message (LEN = 65519 .. 65535): cuts in the headers, strided through the payload, and the last 40
                     let len = *r.pick(&[65519usize, 65520, 65534, 65535]);
@@ -372,6 +414,27 @@ pub fn record(mode: &str, seed: u64, n: usize, out: &mut Out) {
         }
         // C06: storage-header search, junk in front of a message, junk between the messages of a stream
         "junk" => {
+            {
+                // very long pattern-free junk (one repeated byte): beyond one reader buffer (10 MiB) in front of a message, and
+                // beyond 2^32 bytes in front of the pattern (the count is a 64-bit number)
+                let m = gen::message(&mut r, &MsgOpts { storage: Some(true), big: 8, max_args: 1 });
+                let b = m.as_bytes();
+                let alone = parse_res(&b, None, true, false);
+                for nj in [10 * 1024 * 1024 - 4usize, 10 * 1024 * 1024, 10 * 1024 * 1024 + 100] {
+                    let mut x = vec![b'X'; nj];
+                    x.extend(&b);
+                    x.push(7);
+                    out.calls += 1;
+                    let a = parse_res(&x, None, true, false);
+                    out.emit(json!({"op": "junkrep", "fill": 88, "n": nj, "msg": proj::bytes(&b), "a": a, "b": alone}), true);
+                }
+                let nj: usize = (1usize << 32) + 5 + r.below(1000) as usize;
+                let mut x = vec![0u8; nj];
+                x.extend(b"DLT\x01");
+                out.calls += 1;
+                let res = match forward_to_next_storage_header(&x) { Some((d, rest)) => json!({"v": "found", "dropped": crate::build::limbs_u128(d as u128), "rest_len": rest.len()}), None => json!({"v": "none", "dropped": [0], "rest_len": 0}) };
+                out.emit(json!({"op": "forwardrep", "fill": 0, "n": crate::build::limbs_u128(nj as u128), "res": res}), true);
+            }
             for _ in 0..n {
                 let junk = junk_bytes(&mut r);
                 out.calls += 1;
@@ -546,6 +609,22 @@ pub fn record(mode: &str, seed: u64, n: usize, out: &mut Out) {
                     let mut s = b"DLT\x01\0\0\0\0\0\0\0\0".to_vec();
                     s.extend((0..4).map(|_| *r.pick(&alphabet)));
                     s.extend(&m);
+                    // the same messages cut inside each of their id fields, with and without junk in front of the storage header
+                    let junk: Vec<u8> = (0..r.below(6)).map(|_| *r.pick(&[b'X', 0u8, b'D', 9u8])).collect();
+                    for cut in [12usize, 13, 14, 15, 16 + 4, 16 + 5, 16 + 7, 16 + 10, 16 + 11, 16 + 13, 16 + 14, 16 + 17] {
+                        let mut x = junk.clone();
+                        x.extend(&s[..cut.min(s.len())]);
+                        out.calls += 1;
+                        let mut e = parse_event(&x, None, true);
+                        e["op"] = json!("idcut");
+                        out.emit(e, true);
+                    }
+                    for cut in [4usize, 5, 7, 10, 11, 13, 14, 17] {
+                        out.calls += 1;
+                        let mut e = parse_event(&m[..cut], None, false);
+                        e["op"] = json!("idcut");
+                        out.emit(e, true);
+                    }
                     out.calls += 2;
                     let mut e1 = parse_event(&m, None, false);
                     e1["op"] = json!("ids");
@@ -799,7 +878,7 @@ pub fn rerun(ev: &J) -> J {
     let sh = ev["sh"].as_bool().unwrap_or(false);
     let cfg: Option<DltFilterConfig> = ev.get("flt").and_then(|f| f.as_array()).and_then(|a| a.first()).map(unproj::filter_config);
     match op {
-        "parse" => parse_event(&buf(), cfg.as_ref(), sh),
+        "parse" => match (ev.get("direct").and_then(|d| d.as_u64()), cfg.as_ref()) { (Some(l), Some(c)) => parse_event_direct(&buf(), c, l as u8, sh), _ => parse_event(&buf(), cfg.as_ref(), sh) },
         "consume" => consume_event(&buf()),
         "skip" => skip_event(&buf()),
         "forward" => forward_event(&buf()),
@@ -823,13 +902,13 @@ pub fn rerun(ev: &J) -> J {
             let b = unproj::bytes(&ev["full"]);
             let ks: Vec<usize> = ev["ks"].as_array().unwrap().iter().map(|k| k.as_u64().unwrap() as usize).collect();
             let mut c = 0u64;
-            prefixes_event(&b, sh, &ks, &mut c)
+            prefixes_event_f(&b, sh, &ks, &mut c, cfg.as_ref())
         }
-        "nopanic" => { let mut e2 = ev.clone(); e2["op"] = ev["api"].clone(); nopanic(rerun(&e2)) }
+        "nopanic" => { let mut e2 = ev.clone(); e2["op"] = ev["api"].clone(); let mut e3 = nopanic(rerun(&e2)); if let Some(d) = ev.get("direct") { e3["direct"] = d.clone(); } e3 }
         "reser3" => { let mut e = reser_event(&unproj::message(&ev["m"]), true); e["op"] = json!("reser3"); e }
         "frame" => frame_event(&buf(), cfg.as_ref(), sh, ev["api"].as_str().unwrap()),
         "filter" => filter_event(&buf(), cfg.as_ref().unwrap(), sh, true),
-        "ids" => { let mut e = parse_event(&buf(), None, sh); e["op"] = json!("ids"); e }
+        "ids" | "idcut" => { let mut e = parse_event(&buf(), None, sh); e["op"] = ev["op"].clone(); e }
         "junkparse" => junkparse_event(&unproj::bytes(&ev["junk"]), &unproj::bytes(&ev["msg"]), &unproj::bytes(&ev["sfx"]), cfg.as_ref()),
         "recover" => {
             let mut stream = vec![];
